@@ -165,6 +165,10 @@ def run(ctx):
     inputs.append(("1FTJ-LYS210-210A", pdbgen.text(pdbgen.salt_bridge_twins())))
     # a pair that is coupled in the second conformation only: coupling marks must not leak between conformations
     inputs.append(("1HPX-ASP25B-two-rotamers", pdbgen.text(pdbgen.coupled_in_one_conformation())))
+    # a group that is discarded by a covalent coupling (the side chain of an N-terminal Asp loses against its own amino group) and
+    # non-covalently coupled to another group at the same time: 1HPX with chain B cut in front of Asp 25
+    hp = dict(pdbgen.test_files(["1HPX"]))["1HPX"]
+    inputs.append(("1HPX-chainB-from-ASP25", pdbgen.text([l for l in pdbgen.lines_of(hp) if not (pdbgen.is_atom(l) and l[21] == "B" and int(l[22:26]) < 25)])))
     off_bad, star_bad, npairs = [], [], 0
     for name, text in inputs:
         on = observe.run(text, [], want_text=True)
